@@ -733,7 +733,13 @@ func (vc *VC) rangeSet(x *ast.RangeStmt, st *State, lr *loopRun, mods []types.Ob
 	})
 	lr.ghost["$done"] = done
 	exit := head.clone()
-	allDone := Term{fmt.Sprintf("(forall ((k! %s)) (! (=> %s (select %s k!)) :pattern ((select %s k!))))", ks, member(Term{"k!", ks, kt}).S, done.S, done.S), SBool, nil}
+	memK := member(Term{"k!", ks, kt}).S
+	memPat := ""
+	if (strings.HasPrefix(memK, "(select ") || strings.HasPrefix(memK, "(sp.")) && strings.Contains(memK, "k!") {
+		// the membership atom is a trigger too: a member named in the goal is known to have been visited
+		memPat = fmt.Sprintf(" :pattern (%s)", memK)
+	}
+	allDone := Term{fmt.Sprintf("(forall ((k! %s)) (! (=> %s (select %s k!)) :pattern ((select %s k!))%s))", ks, memK, done.S, done.S, memPat), SBool, nil}
 	// the loop exits normally exactly when every member has been visited
 	ex := exit.clone()
 	exitFlag := vc.freshOfSort("exit", SBool, nil)
